@@ -56,7 +56,7 @@ var canaries = map[string][]canary{}
 // propertyCanaries lists, per property, the rules whose canaries are run
 // after the property's own analysis.
 var propertyCanaries = map[string][]string{
-	"C01": {"ARGS.lenvalue", "STRIDE.stepbound", "STRIDE.flatfill", "ALPHA.noread", "STRIDE.fullrange", "STRIDE.unitidx", "FLAG.unitdiag", "BETA.noread", "BETA.quickret", "BETA.scaleguard", "FLAG.neginc", "STRIDE.index", "STRIDE.len", "STRIDE.start", "STRIDE.rowoffset", "STRIDE.extent", "FLAG.trans", "TWIN.generated", "ASM.units", "ASM.lost"},
+	"C01": {"LOOPIDX.continue", "ARGS.lenvalue", "STRIDE.stepbound", "STRIDE.flatfill", "ALPHA.noread", "STRIDE.fullrange", "STRIDE.unitidx", "FLAG.unitdiag", "BETA.noread", "BETA.quickret", "BETA.scaleguard", "FLAG.neginc", "STRIDE.index", "STRIDE.len", "STRIDE.start", "STRIDE.rowoffset", "STRIDE.extent", "FLAG.trans", "TWIN.generated", "ASM.units", "ASM.lost"},
 	"C02": {"ARGS.lenvalue", "STRIDE.argmaxbase", "WORK.init", "FLAG.cholorder", "ARGS.callee", "FLAG.unset", "FLAG.unitdiag", "WORKSIZE.fallback", "OKFLOW.loopstatus", "FACTKIND.pair", "ARGS.order", "ARGS.lencheck", "ARGS.query", "LOOPIDX.unused", "OKFLOW.report", "STRIDE.vecinc", "WORKSIZE.min", "WORKSIZE.querylen"},
 	"C03": {"LOOPFLAG.stale", "WORK.init", "FLAG.cholorder", "ARGS.callee", "FLAG.unset", "FLAG.unitdiag", "WORKSIZE.fallback", "GUARD.operand", "FLAG.uplomap", "STRIDE.veclda", "FACTKIND.pair", "LOOPIDX.origin", "ARGS.order", "ARGS.lencheck", "ARGS.query", "LOOPIDX.unused", "OKFLOW.report", "STRIDE.workld", "STRIDE.worknext", "WORKSIZE.min"},
 	"C04": {"USE.empty", "STRIDE.stepbound", "BAND.rowcol", "MAT.access", "MAT.selfguard", "ZEROED.paths", "SWAP.cond", "STRIDE.contig", "TWIN.bounds", "NILRECV"},
@@ -123,6 +123,7 @@ func init() {
 		{"USE.empty", "mat/vector.go", "\tif v.IsEmpty() || (v.mat.Inc == 1 && n <= v.mat.N) {\n", "\tif v.IsEmpty() || n <= v.mat.N {\n", func() *core.Result { return zeroed.RunUseEmpty(def) }},
 		{"ARGS.lenvalue", "lapack/gonum/dlange.go", "\t\tfor i := 0; i < m; i++ {\n\t\t\tscale, sum = impl.Dlassq(n, a[i*lda:], 1, scale, sum)\n\t\t}\n\t\treturn scale * math.Sqrt(sum)", "\t\tif lda == n {\n\t\t\tscale, sum = impl.Dlassq(len(a), a, 1, scale, sum)\n\t\t\treturn scale * math.Sqrt(sum)\n\t\t}\n\t\tfor i := 0; i < m; i++ {\n\t\t\tscale, sum = impl.Dlassq(n, a[i*lda:], 1, scale, sum)\n\t\t}\n\t\treturn scale * math.Sqrt(sum)", func() *core.Result { return flagx.RunLenValue(def, core.Pkgs("./lapack/gonum")) }},
 		{"FACT.condpath", "mat/lu.go", "\t\tlu.lu.Copy(orig.lu)\n\t\tlu.ok = orig.ok\n\t}\n", "\t\tlu.lu.Copy(orig.lu)\n\t\tlu.ok = orig.ok\n\t}\n\tif alpha == 0 {\n\t\treturn\n\t}\n", func() *core.Result { return factx.Run(def) }},
+		{"LOOPIDX.continue", "blas/gonum/level2float64.go", "\t\t\t\tatmp := ap[offset:]\n\t\t\t\txi := x[i]\n\t\t\t\tyi := y[i]\n\t\t\t\txtmp := x[i:n]", "\t\t\t\tatmp := ap[offset:]\n\t\t\t\txi := x[i]\n\t\t\t\tyi := y[i]\n\t\t\t\tif xi == 0 && yi == 0 {\n\t\t\t\t\tcontinue\n\t\t\t\t}\n\t\t\t\txtmp := x[i:n]", func() *core.Result { return loopidx.RunContinueSkip(def, core.Pkgs("./blas/gonum")) }},
 		{"ARGS.workquery", "lapack/gonum/dgeqrf.go", "case len(work) < max(1, lwork):", "case len(work) < lwork:", func() *core.Result { return flagx.RunWorkQuery(def, core.Pkgs("./lapack/gonum")) }},
 		{"ARGS.callee", "lapack/gonum/dsytrd.go", "case len(d) < n:", "case len(d) < n-1:", func() *core.Result { return worksize.RunCallee(def, core.Pkgs("./lapack/gonum")) }},
 		{"GRAPHINV.together", "graph/simple/weighted_undirected.go", "\tif fm, ok := g.edges[fid]; ok {\n\t\tfm[tid] = e\n\t} else {", "\tif fm, ok := g.edges[fid]; ok {\n\t\t_, exists := fm[tid]\n\t\tfm[tid] = e\n\t\tif exists {\n\t\t\treturn\n\t\t}\n\t} else {", func() *core.Result { return graphinv.Run(def) }},
